@@ -54,6 +54,15 @@ def run(chk):
             if k not in again:
                 chk.inconclusive.append("rejected once, not on the second run: %s" % k)
                 del seen[k]
+    # slice of the routing check: connections that route at the same time share nothing (key extraction scratch, lookup keys)
+    rr = fncommon.run_fn(chk, "rt", "RoutingTrace", "RoutingTrace.cfg", extra_args=["-only", "conc"], tag="-conc")
+    if rr["findings"]:
+        rr2 = fncommon.run_fn(chk, "rt", "RoutingTrace", "RoutingTrace.cfg", extra_args=["-only", "conc"], tag="-conc-again")
+        if rr2["findings"]:
+            e = rr2["findings"][0][0]
+            chk.report("pool:concurrent-routing", "connections routing at the same time: a pipeline received records of another tuple or is named / tagged by another record's keys: %s" % json.dumps(e)[:1500], {"event.json": e})
+        else:
+            chk.inconclusive.append("concurrent routing rejected once, not on the second run")
     for k, e in seen.items():
         chk.report("pool:" + k, "record isolation: event rejected by RecordPoolTrace: %s" % json.dumps(e)[:1800], {"event.json": e})
     first = [json.loads(l) for l in open(r["first_trace"]).read().splitlines()]
@@ -61,7 +70,7 @@ def run(chk):
     chk.cov.update({"states": sum(m.get("distinct", 0) for m in mcs) + r["states"], "transitions": sum(m.get("generated", 0) for m in mcs) + r["states"],
                     "traces_validated_against_impl": 2 * vlib.NCPU, "evaluations": r["events"], "distinct_nontrivial": r["cases"],
                     "pool_reuse_in_first_shard": {"allocations": len(news), "reused_objects": sum(1 for e in news if not e["fresh"])},
-                    "rule": "every sequence of %d record shapes out of 10 (short / pooled-size with all optional fields / pooled-size without / escaped / escaped pooled / multi-line / refused by the parser / dropped by a filter / unparsable time / e-mail) plus 20 (thorough: 300) seeded sequences of 12 per shard, as one stream over two interleaved TCP connections into one long-lived agent (GOMAXPROCS=1, collector off, so sync.Pool and the buffer pools really reuse), every third history in lock step and the others in bursts; with 1 and with 2 outputs; each record also alone on fresh allocator/parser/transforms/serializers" % (4 if chk.tier == "thorough" else 3),
+                    "rule": "every sequence of %d record shapes out of 10 (short / pooled-size with all optional fields / pooled-size without / escaped / escaped pooled / multi-line / refused by the parser / dropped by a filter / unparsable time / e-mail) plus 20 (thorough: 300) seeded sequences of 12 per shard, as one stream over two interleaved TCP connections into one long-lived agent (GOMAXPROCS=1, collector off, so sync.Pool and the buffer pools really reuse), every third history in lock step and the others in bursts; with 1 and with 2 outputs; each record also alone on fresh allocator/parser/transforms/serializers; one more agent per shard with four connections written in parallel on four processors; the routing slice: four orchestrator sinks routing their own key tuples at the same time (Routing!CheckConcurrent)" % (4 if chk.tier == "thorough" else 3),
                     "samples": [e for e in first if e["ev"] == "Out"][:2]})
     chk.assumptions += ["the documented stateful percentage sampling is excluded (drop rate 100 in the test configuration)",
                         "fallback timestamps (time of reception) of records whose time cannot be parsed are normalised; a stale timestamp of another record would still differ from the fallback and is reported",
